@@ -320,3 +320,7 @@ class ThrottleFactory(Contract):
 
 
 CONTRACTS = CONTRACTS + [ThrottleFactory()]
+
+
+def extra_contracts():
+    return mimic_variants("C15")
